@@ -82,6 +82,7 @@ def shards(tier):
     out += [{"part": "wide", "i": i} for i in range(len(WIDE_DOCS))]
     out += [{"part": "dup", "i": i} for i in range(len(DUP_DOCS))]
     out += [{"part": "dag", "i": i} for i in range(len(dag_docs()))]
+    out += [{"part": "history", "q": qi} for qi in range(len(HIST_QUERIES))]
     sk = skeletons(7 if tier == "quick" else 8)
     out += [{"part": "skeleton", "lo": lo, "hi": min(lo + 4, len(sk)), "max": 7 if tier == "quick" else 8,
              "full": 6 if tier == "quick" else 7, "cap": 4000 if tier == "quick" else 20000}
@@ -189,6 +190,69 @@ def explore_input(query, doc, cap=CAP, flag="subclass"):
         return results, ctl.executions, capped, invalid, P, ctl.points
 
 
+# ---- histories on ONE compiled query in nondeterministic mode: an application that was not run to
+# its end (find_one, an abandoned iterator) must leave nothing behind for the next application
+HIST_QUERIES = ["$..b", "$..*", "$..[*]", "$.*", "$[?@..b]", "$..[?@]"]
+HIST_DOC1 = {"a": {"b": 1, "c": [3]}, "c": [2, {"b": 4}]}
+HIST_DOC2 = {"x": [1, {"b": 2}], "b": 0}
+HIST_PRE = ["find_one", "partial_1", "partial_2", "find_one_twice", "full"]
+
+
+def _history_run(cq, pre):
+    if pre.startswith("find_one"):
+        for _ in range(2 if pre.endswith("twice") else 1):
+            cq.find_one(HIST_DOC1)
+    elif pre.startswith("partial"):
+        it = iter(cq.finditer(HIST_DOC1))
+        for _ in range(int(pre[-1])):
+            next(it, None)
+        del it
+    else:
+        cq.find(HIST_DOC1)
+    return tuple(n.location for n in cq.find(HIST_DOC2))
+
+
+def check_history(query, pre, sh=None, answers=None):
+    """-> violation | None: every outcome of the random choices of the WHOLE history must leave the
+    second application with one of the orderings permitted for its own document"""
+    P = ev.permitted(rt.classify(query).ast, HIST_DOC2)
+    case = {"history_query": query, "before": pre}
+    cq = compiled(query)
+    with choice.controlled(modules()) as ctl:
+        if answers is not None:
+            ctl.chooser.start(answers)
+            try:
+                res = _history_run(compiled(query), pre)
+            except choice.Divergence as e:
+                return violation("invalid-ordering", dict(case, choices=answers), "replayable", {"divergence": str(e)}, "invalid-order")
+            if res not in P:
+                return violation("invalid-ordering", dict(case, choices=answers), {"permitted_orderings": len(P)},
+                                 {"result": [list(x) for x in res]}, "invalid-order")
+            return None
+        bad = None
+        seen = set()
+        for trace, res in ctl.explore(lambda: _history_run(compiled(query), pre), max_executions=60000):
+            seen.add(res)
+            if res not in P:
+                bad = violation("invalid-ordering", dict(case, choices=[a for a, _ in trace]),
+                                {"permitted_orderings": len(P)}, {"result": [list(x) for x in res]}, "invalid-order")
+                break
+        if sh is not None:
+            sh.states += ctl.points + ctl.executions
+            sh.transitions += ctl.points
+            sh.traces += ctl.executions
+            sh.evaluations += ctl.executions
+            sh.nontrivial += 1
+            if ctl.executions >= 60000:
+                sh.bump("inputs_capped_not_exhaustive")
+        if bad is None and ctl.executions < 60000 and seen != P:
+            missing = sorted(P - seen)
+            bad = violation("not-exhaustive", case, {"permitted_orderings": len(P)},
+                            {"produced": len(seen), "missing_example": [list(x) for x in missing[0]]},
+                            f"missing:{len(missing)}/{len(P)}")
+        return bad
+
+
 def replay_choices(query, doc, answers, flag="subclass"):
     cq = compiled(query, flag)
     with choice.controlled(modules()) as ctl:
@@ -227,6 +291,8 @@ def check_input(query, doc, sh=None, cap=CAP, flag="subclass"):
 
 
 def check_case(case):
+    if "history_query" in case:
+        return check_history(case["history_query"], case["before"], answers=case.get("choices"))
     if "dag_doc" in case:
         case = dict(case)
         i = case.pop("dag_doc")
@@ -277,6 +343,13 @@ def run_shard(desc):
             for v in check_input(q, doc, sh):
                 sh.violation(v)
         sh.sample({"query": WIDE_QUERIES[0], "doc": impl.jsonable(doc)}, limit=1)
+    elif desc["part"] == "history":
+        q = HIST_QUERIES[desc["q"]]
+        for pre in HIST_PRE:
+            v = check_history(q, pre, sh)
+            if v:
+                sh.violation(v)
+        sh.sample({"history_query": q, "before": "find_one", "then": "find on another document"}, limit=1)
     elif desc["part"] == "dag":
         doc = dag_docs()[desc["i"]]
         for q in DAG_QUERIES:
